@@ -136,6 +136,16 @@ pub fn lw_pool(quick: bool) -> Vec<LwSpec> {
         env.fates = &[Fate::Deliver, Fate::Drop]; env.deltas = &[20];
         v.push(sp("bulk.slow-receiver", &cfg, &s, env, if quick { 1 } else { 2 }));
     }
+    // F9: more packets than the largest packet window (4096) submitted at once, small and of all modes: the window really fills,
+    // every slot is reused one window later, ids wrap in the second configuration
+    for (cname, cfg) in [("w4096", wide.clone()), ("w4096-wrap", wide_wrap.clone())] {
+        if quick && cname == "w4096-wrap" { continue; }
+        let ops: Vec<Op> = (0..4200usize).map(|i| send(0, 0, (i % 3) as u8, MODES[i % 4], if i % 1000 == 7 { 3000 } else { 8 + i % 23 })).collect();
+        let s = Arc::new(ScriptInfo::new(warm(&ops, 8)));
+        let mut env = env_live(8, if quick { 3 } else { 6 });
+        env.fates = &[Fate::Deliver, Fate::Drop]; env.deltas = &[20];
+        v.push(sp(&format!("bulk.fill-window.{}", cname), &cfg, &s, env, 1));
+    }
     v
 }
 
